@@ -84,3 +84,75 @@ package mkvs
 //@   ensures !old(OvDirty(o, string(key))) && err == nil ==> OvDirty(o, string(key)) == (result0 != nil) && !btHas(o.overlay, string(key)) == !old(btHas(o.overlay, string(key)))
 //@   note returns the previous value of the view and leaves the key absent in the view: a dirty key loses its overlay binding, a clean key that exists in the inner tree becomes dirty without a binding, a clean key that does not exist stays clean
 
+
+// ---- overlay iterator (C03): entries removed or overwritten through the overlay are never yielded from the inner tree ----
+//
+// The inner iterator is any mkvs.Iterator. Its observable state is abstracted by
+// a ghost position GIterPos[it] that every repositioning call changes; Valid,
+// Key and Value are functions of (iterator, position). These are contracts ON
+// THE INTERFACE (assumptions about every implementation, listed as trusted).
+
+//@ import "github.com/oasisprotocol/oasis-core/go/storage/mkvs/node"
+//@ ghost var GIterPos map[Iterator]int
+//@ ghost func OnlyIter(it Iterator) bool { return forall u Iterator :: u != it ==> GIterPos[u] == old(GIterPos[u]) }
+//@ ghost func ItValid(it Iterator) bool { return ufb("iterValid", it, GIterPos[it]) }
+//@ ghost func ItKeyS(it Iterator) string { return ufr[string]("iterKey", it, GIterPos[it]) }
+//@ ghost func ItVal(it Iterator) int { return uf("iterValue", it, GIterPos[it]) }
+
+//@ func Iterator.Valid
+//@   iface (self Iterator) (result bool)
+//@   modifies nothing
+//@   ensures result == ItValid(self)
+
+//@ func Iterator.Key
+//@   iface (self Iterator) (result node.Key)
+//@   modifies nothing
+//@   ensures string(result) == ItKeyS(self)
+
+//@ func Iterator.Value
+//@   iface (self Iterator) (result []byte)
+//@   modifies nothing
+//@   ensures bytesId(result) == ItVal(self)
+
+//@ func Iterator.Next
+//@   iface (self Iterator)
+//@   modifies GIterPos
+//@   ensures GIterPos[self] == old(GIterPos[self]) + 1 && OnlyIter(self)
+
+//@ func Iterator.Rewind
+//@   iface (self Iterator)
+//@   modifies GIterPos
+//@   ensures OnlyIter(self)
+
+//@ func Iterator.Seek
+//@   iface (self Iterator, key node.Key)
+//@   modifies GIterPos
+//@   ensures OnlyIter(self)
+
+//@ ghost func OvItClean(it *treeOverlayIterator) bool { return !(ItValid(it.inner) && OvDirty(it.tree, ItKeyS(it.inner))) }
+
+//@ func treeOverlayIterator.updateIteratorPosition
+//@   props C03
+//@   requires it != nil && it.tree != nil
+//@   modifies GIterPos, *it
+//@   ensures it.inner == old(it.inner) && it.tree == old(it.tree) && it.overlayValid == old(it.overlayValid)
+//@   loop 1 invariant it.inner == old(it.inner) && it.tree == old(it.tree) && it.overlayValid == old(it.overlayValid)
+//@   ensures OvItClean(it)
+//@   ensures !ItValid(it.inner) && !it.overlayValid ==> it.key == nil && it.value == nil
+//@   ensures ItValid(it.inner) && !it.overlayValid ==> string(it.key) == ItKeyS(it.inner) && bytesId(it.value) == ItVal(it.inner)
+//@   note after positioning, the inner iterator never rests on a key that the overlay has overwritten or removed (such keys are answered by the overlay alone), whatever the state of the overlay's own iterator; with the overlay iterator exhausted the merged entry is exactly the inner entry
+
+//@ func treeOverlayIterator.Rewind
+//@   props C03
+//@   requires it != nil && it.tree != nil
+//@   ensures OvItClean(it)
+
+//@ func treeOverlayIterator.Seek
+//@   props C03
+//@   requires it != nil && it.tree != nil
+//@   ensures OvItClean(it)
+
+//@ func treeOverlayIterator.Next
+//@   props C03
+//@   requires it != nil && it.tree != nil
+//@   ensures OvItClean(it)
